@@ -6,7 +6,8 @@ abstract tensors, sharing partition / input-quantizer wiring by induction over t
 Cases: grammar networks (vlib/mps_gen.py) x activation / weight precision tuples from {2,4,8} (1..3
 candidates, any order) x random coefficients with arg-max margin >= 0.05 x temperature in [0.05,20] x
 gumbel / hard / disable_shared_quantizers flags x optional training-mode forward before eval.
-Oracle (implementation only): torch.equal(MPS.eval()(x), MPS.export().eval()(x)); every exported Quant*
+Oracle (implementation only): torch.equal(MPS.eval()(x), MPS.export().eval()(x)) on the first pass AND on 2-3 further passes through
+the same exported model (same batch again, new batches of other sizes, eval()->train()->eval() toggles in between); every exported Quant*
 layer carries the precisions summary() reports; input precision of every exported layer = output precision
 of the exported layer that produced the tensor it consumes (walk over the exported fx graph).
 Correspondence: Model/MpsNet.v `run_wiring` (which quantizer object every layer holds as input / output /
@@ -24,12 +25,19 @@ PRECS = [2, 4, 8]
 
 def gen_case(rng, idx, first=None):
     nodes = G.gen_spec(rng, first=first)
+    if rng.random() < 0.6:        # biased depthwise / residual pairs (shared weight quantizer) must occur often
+        for nd in nodes:
+            if nd['k'] in ('conv', 'dw'):
+                nd['bias'] = True
     r = rng.random()
     T = 0.05 if r < 0.12 else 20.0 if r < 0.24 else round(math.exp(rng.uniform(math.log(0.05), math.log(20))), 4)
     return {'nodes': nodes, 'seed': rng.randrange(1 << 30), 'aseed': rng.randrange(1 << 30),
             'ap': rng.sample(PRECS, rng.randint(1, 3)), 'wp': rng.sample(PRECS, rng.randint(1, 3)),
             'T': T, 'gumbel': rng.random() < 0.4, 'hard': rng.random() < 0.3, 'dsq': rng.random() < 0.25,
-            'pretrain': rng.random() < 0.25, 'adversarial': True, 'idx': idx}
+            'pretrain': rng.random() < 0.25, 'adversarial': True, 'idx': idx,
+            # successive passes through the SAME exported model after the first one: same batch again / a new batch
+            # (other batch size) / eval()->train()->eval() toggle of both models
+            'passes': rng.choice([['same', 'new'], ['new', 'same'], ['same', 'toggle', 'same', 'new'], ['new', 'toggle', 'new'], ['same', 'same', 'new']])}
 
 
 def _producer(gm, n, attr):
@@ -103,6 +111,21 @@ def run_case(c):
         # the MPS model itself must be unaffected by export (second forward)
         with torch.no_grad():
             y2 = p(x)
+        # further passes through the same two models: every one must be bit-identical again
+        stage = 'repeated-forward'
+        later = []
+        for k_, what in enumerate(c.get('passes', ['same', 'new'])):
+            if what == 'toggle':
+                e.train(); e.eval()
+                p.train(); p.eval()
+                continue
+            xk = x if what == 'same' else torch.rand(1 + (c['seed'] + k_) % 3, ci, hw, hw, generator=g) * 1.3 - 0.1
+            with torch.no_grad():
+                yek = e(xk)
+                yk = p(xk)
+            later.append({'pass': k_ + 2, 'input': what, 'equal': bool(torch.equal(yk, yek)), 'maxdiff': float((yk - yek).abs().max()),
+                          'same_as_first': bool(torch.equal(yk, y)) if what == 'same' else None})
+        obs['later'] = later
         obs['equal'] = bool(torch.equal(y, ye))
         obs['finite'] = bool(torch.isfinite(y).all())
         obs['maxdiff'] = float((y - ye).abs().max()) if y.shape == ye.shape else -1.0
@@ -172,6 +195,15 @@ def oracle(c, o):
         return []       # outside the quantifier (non-finite activations); never produced by the generator
     if not o['equal']:
         out.append(('eval-differs-from-export', 'MPS.eval()(x) != MPS.export().eval()(x) (max abs diff %g)' % o['maxdiff']))
+    for lp in o.get('later', []):
+        if not lp['equal']:
+            out.append(('eval-differs-from-export:repeated-forward', 'forward pass no. %d through the same exported model (%s batch): MPS.eval()(x) != export(x) (max abs diff %g); the first pass was %s'
+                        % (lp['pass'], lp['input'], lp['maxdiff'], 'identical' if o['equal'] else 'different too')))
+            break
+    for lp in o.get('later', []):
+        if lp['same_as_first'] is False:
+            out.append(('mps-eval-not-repeatable', 'MPS.eval()(x) on the same batch differs between pass 1 and pass %d' % lp['pass']))
+            break
     if not o['stable']:
         out.append(('export-changes-the-mps-model', 'MPS.eval()(x) differs before / after export()'))
     nodes = c['nodes']
@@ -255,8 +287,8 @@ def compare_model(c, o, val, fixed):
 def run(ctx):
     built = ctx.build()
     ctx.rule = ('grammar networks of vlib/mps_gen.py (1..4 blocks of conv / conv-BN / depthwise / residual add of (x, conv x), of two convs, of a depthwise chain with its source / pooling, head pool-flatten-linear(-BN)-linear; '
-                'depthwise and add directly on the network input forced in a fixed share) x precision tuples from {2,4,8} (1..3, any order) for activations and weights x random alpha with arg-max margin >= 0.05 '
-                'x temperature in [0.05,20] (both ends forced) x gumbel/hard/disable_shared_quantizers/pre-training-forward flags; where a layer input quantizer is not its producer output quantizer object the two are made to select different precisions. '
+                'depthwise / residual blocks forced first in half of the cases, all conv biases on in 60%) x precision tuples from {2,4,8} (1..3, any order) for activations and weights x random alpha with arg-max margin >= 0.05 '
+                'x temperature in [0.05,20] (both ends forced) x gumbel/hard/disable_shared_quantizers/pre-training-forward flags x schedule of 2-3 further forward passes (same / new batch, mode toggles) through the same exported model; where a layer input quantizer is not its producer output quantizer object the two are made to select different precisions. '
                 'one case = one network with one coefficient assignment; distinct by (architecture, precisions, selected indices); non-trivial = at least two candidate precisions somewhere and at least 2 searchable layers')
     n = 260 if ctx.quick else 2600
     cases = []
@@ -268,7 +300,7 @@ def run(ctx):
             ctx.notes.append('unreadable corpus file ' + f)
     forced = ['dw', 'addin', 'dwres', 'res2', 'res']
     for i in range(n):
-        cases.append(gen_case(ctx.rng, i, first=forced[i % 5] if i % 4 == 0 else None))
+        cases.append(gen_case(ctx.rng, i, first=forced[i % 5] if i % 2 == 0 else None))
     with ProcessPoolExecutor(min(NPROC, 8), mp_context=mp.get_context('fork')) as ex:
         obs = list(ex.map(run_case, cases, chunksize=8))
 
@@ -292,6 +324,16 @@ def run(ctx):
             fails.append((key_, what, c, o))
     for key_, what, c, o in fails:
         ctx.violation(key_, {'case': c, 'observed': {k: v for k, v in o.items() if k not in ('tb',)}, 'requires': 'eval == export bit-identically; exported precisions == summary(); input precision == producer output precision'}, what)
+    def shared_biased_pairs(c, o):
+        by = {}
+        for i, ent in o.get('layers', {}).items():
+            nd = c['nodes'][int(i)]
+            fused_bn = any(m['k'] == 'bn' and m['src'] == int(i) for m in c['nodes'])
+            if ent.get('w') is not None and (nd.get('bias') or fused_bn):
+                by.setdefault(ent['w'], []).append(int(i))
+        return sum(1 for v in by.values() if len(v) >= 2)
+    ctx.extra['cases_with_biased_layers_sharing_a_weight_quantizer'] = sum(1 for c, o in zip(cases, obs) if shared_biased_pairs(c, o) > 0)
+    ctx.extra['forward_passes_compared'] = sum(1 + len(o.get('later', [])) for o in obs if not o['exc'])
     ctx.extra['theta_checked'] = sum(len(o.get('quantizers', {})) for o in obs)
     ctx.extra['theta_not_onehot_at_argmax'] = sum(1 for o in obs for q in o.get('quantizers', {}).values() if not q['theta_onehot_at_argmax'])
 
